@@ -304,7 +304,7 @@ def rule_metadata(ctx, tab, rule="R5"):
     roles = tab["roles"]
     # 1. configuration setters -> configuration fields (written as `self.f = x; self` or as `Self { f: x, ..self }`)
     cfg = {}
-    for meth in ("duration_seconds", "delay_seconds", "repeat", "reverse"):
+    for meth in ("duration_seconds", "delay_seconds", "repeat", "reverse", "default_easing"):
         b = F.one(crate="mina_core", name=meth, impl_trait="mina_core::timeline::TimelineConfigurationBuilder")
         ps = [p for p in pse.Engine(F).run(b) if p.outcome == "return"]
         ok = len(ps) == 1
@@ -349,6 +349,39 @@ def rule_metadata(ctx, tab, rule="R5"):
     else:
         ctx.ob(rule, "flow/conversion", False, "the conversion must build one TimeScale from the configuration; got %s"
                % (show(tsv) if tsv else sorted(rets, key=str)), ct["span"], what="metadata-flow")
+    # the default easing travels beside the time scale: configuration field -> the arguments' easing field (the generated
+    # build hands that field to every sub-timeline: C17/G4)
+    ez_fields = [f["name"] for f in F.adt(c11.TBA)["variants"][0]["fields"] if f["ty"].endswith("easing::Easing")]
+    if len(ez_fields) == 1 and cfg.get("default_easing") is not None:
+        vals = {repr(dict(p.ret[4]).get(ez_fields[0])) for p in ps if p.ret[0] == "agg"}
+        want = {repr(("field", ("deref", ("param", 1)), cfg["default_easing"])), repr(("field", ("param", 1), cfg["default_easing"]))}
+        ctx.ob(rule, "flow/default_easing->arguments.%s" % ez_fields[0], len(vals) == 1 and vals <= want,
+               "the easing given to default_easing must become the builder arguments' default easing; it receives %s"
+               % sorted(vals)[:2], ct["span"], what="metadata-flow")
+    else:
+        ctx.ob(rule, "flow/default_easing", False, "the builder arguments must carry exactly one Easing (the default easing): %s"
+               % ez_fields, ct["span"], what="metadata-flow")
+    # 2b. a configuration nobody touched is a valid one: cycle duration finite > 0, delay 0, no repeat, no reverse (the
+    #     premise under which every other rule reads the time scale)
+    db = F.find(crate="mina_core", name="default", impl_trait="core::default::Default")
+    db = [x for x in db if "TimelineConfiguration" in (x.get("impl_self") or "")]
+    if len(db) == 1:
+        dps = [p for p in pse.Engine(F).run(db[0]) if p.outcome == "return"]
+        okd = len(dps) == 1 and dps[0].ret[0] == "agg"
+        got = {}
+        if okd:
+            dv = dict(dps[0].ret[4])
+            fv = lambda t: t[2][2] if pse.is_const(t) and isinstance(t[2], tuple) and t[2][0] == "f" else None
+            got = {"duration": fv(dv.get(cfg.get("duration_seconds"), ("x",))), "delay": fv(dv.get(cfg.get("delay_seconds"), ("x",))),
+                   "repeat": (pse.unit_variant(dv.get(cfg.get("repeat"), ("x",))) or (None, None))[1],
+                   "reverse": dv.get(cfg.get("reverse"))}
+            okd = got["duration"] is not None and 0.0 < got["duration"] < float("inf") and got["delay"] == 0.0 and \
+                got["repeat"] == "None" and got["reverse"] == pse.mk_bool(False)
+        ctx.ob(rule, "config-default", okd,
+               "an untouched configuration must be valid and neutral: cycle duration finite > 0, delay 0, Repeat::None, "
+               "reverse false; it is %s" % got, db[0]["span"], what="default-configuration")
+    else:
+        ctx.lost(rule, "config-default", "Default for TimelineConfiguration not found (%d candidates)" % len(db))
     # 3. getters
     for g, role in (("get_cycle_duration", "duration"), ("get_delay", "delay"), ("get_repeat", "repeat")):
         b = F.one(crate="mina_core", name=g, impl_self_adt=TT.TS)
